@@ -96,6 +96,15 @@ def stages(tier, rng, only=None):
     out.append(Stage("transposed_pairs", "Trace_Part", partrun.run_partitions,
                      lambda: [{"D": B, "prevD": A, "naming": "ints", "sch": list(SCHEMES[k % len(SCHEMES)])}
                               for k, (A, B) in enumerate(ac.transposed_pairs())], _nt_part, partrun.init, aux=aux))
+    def lex_parts():
+        dss = grids.datasets(3, 2)[::3] + [cascade(rng) for _ in range(100 if tier == "quick" else 1000)] \
+            + [ac.cyclic_dataset(rng, 3, 5, incomplete=k % 2 == 1) for k in range(60 if tier == "quick" else 600)]
+        cs = _cases(dss, [ac.PRESET[0]], False)
+        for k, c in enumerate(cs):
+            c["lex"] = k % 5
+        return cs
+    out.append(Stage("partitions_lexicographic", "Trace_Part", partrun.run_partitions, lex_parts, _nt_part, partrun.init,
+                     aux=aux))
     out.append(Stage("consistent_repeated", "Trace_Part", partrun.run_consistent,
                      lambda: _repeated(4, rng, 3000 if tier == "quick" else 30000), _nt_cons, partrun.init, aux=aux))
     if tier == "quick":
